@@ -16,7 +16,7 @@ RULE = (
     "once per run. hand_run (generated): 2-3 strategies built by the constructor and run as constructed (no Backtest copy), interleaved in a generated order, optionally with a sub-strategy created with parent= on a later date: temp empty and perm == what the same object's previous run left, at the start of every run. oob (generated): RunIfOutOfBounds on generated held portfolios vs targets/tolerance, with and without temp['cash']. non-trivial = a stack with a False before a "
     "run_always algo / a nested tree / an out-of-bounds child. distinct = distinct cases (enumerated cases are distinct by construction)."
 )
-ASSUMPTIONS = ["algos return real bools", "with temp['cash'] RunIfOutOfBounds must not raise, is True when a security is out of bounds and False when everything incl. cash is exactly on target (no claim in between)"]
+ASSUMPTIONS = ["algos return Python bools or numpy bools (what comparisons on prices return)", "with temp['cash'] RunIfOutOfBounds must not raise, is True when a security is out of bounds and False when everything incl. cash is exactly on target (no claim in between)"]
 
 SYMS = [(r, ra) for r in (True, False) for ra in (None, True, False)]
 
@@ -63,7 +63,10 @@ def ref_item(it, log):
 
 def build_item(bt, it, log):
     if it[0] == "leaf":
-        return Spy(log, it[1], it[2], it[3])
+        # every other algo answers with a numpy bool, which is what a comparison on prices or values returns (it is not a subclass of bool)
+        import numpy as np
+
+        return Spy(log, it[1], np.bool_(it[2]) if it[1] % 2 == 1 else it[2], it[3])
     if it[0] == "stack":
         return bt.core.AlgoStack(*[build_item(bt, x, log) for x in it[1]])
     if it[0] == "or":
